@@ -12,7 +12,7 @@ LEVEL = 'other'
 EXPECTED_MIN = {'quick': 8, 'thorough': 10}
 EXPLANATION = ('PROVED: (a) member clauses -- for the Episode/AutoReset/Eval wrappers and their composition over a havoc per-member environment, member i of the '
                'batched step equals the single-instance step on member i\'s inputs, for all states, actions and done patterns (z3); (b) VmapWrapper and '
-               'DomainRandomizationVmapWrapper trace to exactly jax.vmap of the inner reset/step (jaxpr identity); (c) non-interference of the vmapped physics '
+               'DomainRandomizationVmapWrapper trace to exactly jax.vmap of the inner reset/step (jaxpr identity; for the randomisation wrapper both step -- member clause -- and reset -- vmap over per-member systems); (c) non-interference of the vmapped physics '
                'step by may-depend analysis of its jaxpr (spring, positional; generalized attempted).  BOUNDED (not proof): jit(vmap(f))(batch)[i] vs f(batch[i]) on '
                'generated models.  NOT decided by proof: jit == eager to round-off (XLA numerics).')
 TRUSTED = ['jax.vmap is correct (a vmapped function computes the per-member function)', 'XLA compiles the jaxpr faithfully (jit vs eager round-off is outside the proof)']
